@@ -1,5 +1,5 @@
 From Coq Require Import String Ascii List Bool Arith ZArith.
-Require Import PyStr PyInt Sexp Xml M_C09 M_C08 R_C08 Ns Table M_Parse R_Parse M_Write.
+Require Import PyStr PyInt Sexp Xml M_C09 M_C08 R_C08 Ns Table M_Parse R_Parse M_Write M_WriteText.
 Import ListNotations.
 Definition d_aval (x : sexp) : option aval :=
   match x with
@@ -43,7 +43,11 @@ Definition d_wparams (x : sexp) : option wparams :=
       omap (fun f => {| wp_uri := u; wp_inc := i; wp_pubdate := p; wp_now := n; wp_newver := v; wp_fname := f |}) (d_str f))))))
   | _ => None end.
 Definition run_write (cmd : str) (args : list sexp) : option sexp :=
-  if str_eqb cmd (lit "write_regular") then
+  if str_eqb cmd (lit "text_clean") then
+    match args with [p; w] => obind (d_parsed p) (fun p => omap (fun w => e_bool (text_clean (wp_pubdate w) p w)) (d_wparams w)) | _ => None end
+  else if str_eqb cmd (lit "write_text") then
+    match args with [p; w] => obind (d_parsed p) (fun p => omap (fun w => e_res e_str (write_text (wp_pubdate w) p w)) (d_wparams w)) | _ => None end
+  else if str_eqb cmd (lit "write_regular") then
     match args with [p; w] => obind (d_parsed p) (fun p => omap (fun w => e_bool (write_regular p w)) (d_wparams w)) | _ => None end
   else if str_eqb cmd (lit "write_doc") then
     match args with [p; w] => obind (d_parsed p) (fun p => omap (fun w => e_res e_doc (write_doc p w)) (d_wparams w)) | _ => None end
